@@ -114,6 +114,30 @@ def run(cx):
         if not call_sites(st, "HalfConnection::fill_flush_alloc"):
             inst.violation(st.path, "fill_flush_alloc", "step() no longer refills the credit")
 
+    with cx.instance("C13.e", "T3 WHO-MAY", "the flush credit is only ever refilled by fill_flush_alloc, debited by the length sent, or handed over by an emitter", floor=4) as inst:
+        ok_forms = [
+            r"sub\(arg1\.flush_alloc,cast<isize>\(\[T\]::len\(.*\)\)\)",
+            r"Ord::min\(.*isize::saturating_add\(arg1\.flush_alloc,.*\)",
+            r"Ord::min\(f64::round.*",
+        ]
+        for b in R.all_bodies():
+            if not b.path.startswith("half_connection::"):
+                continue
+            for l, node, ps in b.field_writes(r"arg1\.flush_alloc"):
+                v = show(b.rvalue_expr(node["rv"])) if node["k"] == "assign" else show(b.call_expr(node))
+                inst.site(b, l, "%s: flush_alloc = %s" % (b.path.split("::")[-1], v[:70]))
+                if b.path.endswith("::new"):
+                    continue
+                if not any(re.fullmatch(rx, v) for rx in ok_forms):
+                    inst.violation(b.path, "flush_alloc write", "the flush credit is set to `%s`: only the rate-limited refill and debits by the bytes sent may change it" % v[:120], at=b.span_at(l))
+            for l, s2 in b.assigns():
+                rv = s2["rv"]
+                if rv["k"] == "agg" and rv.get("adt", "").endswith("half_connection::HalfConnection"):
+                    v = show(b.operand_expr(rv["ops"][rv["fields"].index("flush_alloc")]))
+                    inst.site(b, l, "HalfConnection::new: flush_alloc = " + v)
+                    if v not in ("cast<isize>(MAX_FRAME_SIZE)", "0"):
+                        inst.violation(b.path, "initial flush_alloc", "a new connection starts with flush credit `%s` (more than one frame)" % v, at=b.span_at(l))
+
     ceiling_clamp(cx, "C13.d")
 
 
